@@ -57,6 +57,10 @@ OPS = ["set_weights", "set_means", "set_variances", "set_floor", "em_step", "em_
        "em_many", "aug_assign", "edit_reassign", "lend_arrays", "parallel_stats", "marginalise"]
 
 
+_ATTR = {"set_weights": "weights", "set_means": "means", "set_variances": "variances",
+         "set_floor": "variance_thresholds"}
+
+
 def setup():
     pass
 
@@ -85,6 +89,9 @@ def gen_case(rng, tier):
     for _ in range(n_ops):
         name = rng.choice(OPS)
         lay = rng.choice([None, None, None, "F", "T", "strided"])
+        # the caller first tries an array of the wrong shape (the setter raises, or not), catches
+        # the exception and then assigns the right one
+        rej = rng.choice([None, None, None, None, "features", "components"])
         if name == "set_weights":
             w = gen_simplex(rng, c)
             if c >= 2 and rng.random() < 0.2:
@@ -93,14 +100,16 @@ def gen_case(rng, tier):
                 for j in rng.sample(range(c), rng.randint(1, c - 1)):
                     w[j] = 0.0
                 w = w / w.sum()
-            ops.append({"op": name, "v": L(w), "lay": lay})
+            ops.append({"op": name, "v": L(w), "lay": lay, "reject": rej})
         elif name == "set_means":
-            ops.append({"op": name, "v": L(sig6(rs.randn(c, d) * 2 * scale)), "lay": lay})
+            ops.append({"op": name, "v": L(sig6(rs.randn(c, d) * 2 * scale)), "lay": lay,
+                        "reject": rej})
         elif name == "set_variances":
             ops.append({"op": name, "v": L(sig6(rs.uniform(0.05, 4.0, size=(c, d)) * scale2)),
-                        "lay": lay})
+                        "lay": lay, "reject": rej})
         elif name == "set_floor":
-            ops.append({"op": name, "v": _rand_floor(rng, rs, c, d, scale2), "lay": lay})
+            ops.append({"op": name, "v": _rand_floor(rng, rs, c, d, scale2), "lay": lay,
+                        "reject": rej})
         elif name == "em_step":
             n = rng.randint(max(2, min(c, 10)), 12)
             X = sig6(means[rs.randint(0, c, size=n)] + rs.randn(n, d) * scale * 1.2)
@@ -291,6 +300,24 @@ def run_case(case, replay=None):
             name = o["op"]
             try:
                 with np.errstate(all="ignore"):
+                    cc, dd = np.asarray(m.means).shape
+                    # (a floors array that happens to broadcast against the variances is not a
+                    # wrong shape: it is accepted and legitimately reshapes the variances)
+                    if o.get("reject") and name in _ATTR and not (
+                            name == "set_floor" and (cc if o["reject"] == "components" else dd) < 2):
+                        if name == "set_weights":
+                            bad = np.full(cc + 1, 1.0 / (cc + 1))
+                        elif name == "set_floor":
+                            bad = np.full(dd + 1, 0.5) if o["reject"] == "features" \
+                                else np.full((cc + 1, dd), 0.5)
+                        else:
+                            bad = np.ones((cc, dd + 1) if o["reject"] == "features" else (cc + 1, dd))
+                        try:
+                            setattr(m, _ATTR[name], bad)
+                            rec.probe("wrong_shape_assignment_accepted")
+                        except Exception:
+                            rec.probe("wrong_shape_assignment_raised")
+                            rec.faults["F10_rejected_call"] = rec.faults.get("F10_rejected_call", 0) + 1
                     if name == "set_weights":
                         m.weights = _lay(o, A(o["v"]))
                         rec.probe("weights_with_exact_zeros", bool((A(o["v"]) == 0).any()))
@@ -304,8 +331,9 @@ def run_case(case, replay=None):
                     elif name == "set_floor":
                         old = np.asarray(m.variance_thresholds, float)
                         new = np.asarray(cut(_floor(o["v"])), float)
-                        rec.probe("floor_raised", bool((new > old).any()))
-                        rec.probe("floor_lowered", bool((new < old).any()))
+                        if old.shape in ((), new.shape) or new.shape == ():
+                            rec.probe("floor_raised", bool((new > old).any()))
+                            rec.probe("floor_lowered", bool((new < old).any()))
                         before = np.array(m.variances, float)
                         fl = _floor(o["v"])
                         fl = cut(fl) if isinstance(fl, np.ndarray) else fl
